@@ -137,6 +137,9 @@ GSIGS = [
     ('gq_gt', ['A', 'B'], [tup(('var', 'A'), ('var', 'B')), ('var', 'B')], nat('Mapping', 'int', ('var', 'B'))),
     ('gq_gm', ['T'], [nat('Sequence', nat('Optional', ('var', 'T'))), nat('Optional', ('var', 'T'))], ('var', 'T')),
     ('gq_gr', ['T'], [fn([], ('var', 'T')), fn([], ('var', 'T'))], ('var', 'T')),
+    ('gq_gk', ['T'], [fn([('var', 'T')], ('var', 'T'))], fn([('var', 'T')], ('var', 'T'))),
+    ('gq_gh', ['T', 'U'], [fn([('var', 'T')], ('var', 'U'))], fn([('var', 'T'), ('var', 'T')], ('var', 'U'))),
+    ('gq_gz', ['T'], [('var', 'T')], fn([], nat('Sequence', ('var', 'T')))),
 ]
 
 
@@ -309,6 +312,52 @@ def construct_cases(tier):
     return out
 
 
+# ----------------------------------------------------------------------------- F. generic calls from inside a generic function
+def host_cases(tier):
+    """the caller's own type parameter H is an opaque type of its own, whatever it is called: calls of generic functions whose
+    parameters have the same or another name, results bound to declared types"""
+    HOST = cmp_('HostT')
+    callees = [
+        ('hq_id', ['T'], [('var', 'T')], ('var', 'T')),
+        ('hq_first', ['T'], [('var', 'T'), ('var', 'T')], ('var', 'T')),
+        ('hq_el', ['T'], [nat('Sequence', ('var', 'T'))], ('var', 'T')),
+        ('hq_wrap', ['T'], [('var', 'T')], nat('Sequence', ('var', 'T'))),
+        ('hq_pair', ['T', 'U'], [('var', 'T'), ('var', 'U')], tup(('var', 'U'), ('var', 'T'))),
+        ('hq_app', ['T', 'U'], [fn([('var', 'T')], ('var', 'U')), ('var', 'T')], ('var', 'U')),
+        ('hq_mk', ['T'], [('var', 'T')], fn([('var', 'T')], ('var', 'T'))),
+        ('hq_push', ['T'], [nat('Stack', ('var', 'T')), ('var', 'T')], nat('Stack', ('var', 'T'))),
+    ]
+    decls = ''.join('fn %s<%s>(%s)->%s{ error("never run") }\n' % (n, ', '.join(g), ', '.join('a%d: %s' % (i, render(p)) for i, p in enumerate(ps)), render(r)) for n, g, ps, r in callees)
+    # values available inside the host, with their types
+    avail = [('x', HOST), ('s', nat('Sequence', HOST)), ('k', nat('Stack', HOST)), ('f', fn([HOST], 'int')), ('1', 'int'), ('[1]', nat('Sequence', 'int')), ('"a"', 'str'),
+             ('stack().push(1)', nat('Stack', 'int')), ('(p0: int)->{ "s" }', fn(['int'], 'str'))]
+    targets = [HOST, 'int', 'str', nat('Sequence', HOST), nat('Sequence', 'int'), nat('Stack', HOST), tup('int', HOST), tup(HOST, 'int'), fn([HOST], HOST), fn(['int'], 'int')]
+    out = []
+    n = 0
+    for hname in ('T', 'U', 'V'):
+        def rr(t):
+            return render(t).replace('HostT', hname)
+        for cname, gens, params, ret in callees:
+            for args in itertools.product(avail, repeat=len(params)):
+                ok, b = T.bind_call(params, [a[1] for a in args])
+                if ok == T.UNSPEC:
+                    continue
+                call = '%s(%s)' % (cname, ', '.join(a[0] for a in args))
+                hdr = 'fn hh%%d<%s>(x: %s, s: Sequence<%s>, k: Stack<%s>, f: (%s)->(int))->int{ %%s 0 }' % (hname, hname, hname, hname, hname)
+                n += 1
+                out.append(('generic-host|%s|%s|%s(%s)' % (hname, cname, cname, ' ; '.join(rr(a[1]) for a in args)), hdr % (n, 'let v = %s;' % call), bool(ok), []))
+                if ok and all(g in b for g in gens):
+                    rt = T.subst(ret, b)
+                    if not writable(rt):
+                        continue
+                    for tg in targets:
+                        n += 1
+                        exp = assignable(tg, rt)
+                        out.append(('generic-host|%s|%s|%s(%s)|as %s' % (hname, cname, cname, ' ; '.join(rr(a[1]) for a in args), rr(tg)),
+                                    hdr % (n, 'let v: %s = %s;' % (rr(tg), call)), exp, []))
+    return decls, out
+
+
 # ----------------------------------------------------------------------------- run
 def run(tier):
     rep = Report(PROP, tier, 'model_checking',
@@ -367,7 +416,9 @@ def run(tier):
                              'accepted' if kind == 'ok' else 'rejected: ' + info, job_for(text)))
     # B / C
     extra = [GD for GD in (''.join(gsig_decl(*g) for g in GSIGS) + 'struct DD<T>(a: T, b: T)\nunion UU<T>(l: T, r: T)\n',)]
-    for fam, cs in (('generic', generic_cases(tier)), ('inferred', inferred_cases(tier)), ('call', call_cases(tier)), ('construct', construct_cases(tier))):
+    hdecls, hcases = host_cases(tier)
+    extra[0] += hdecls
+    for fam, cs in (('generic', generic_cases(tier)), ('inferred', inferred_cases(tier)), ('call', call_cases(tier)), ('construct', construct_cases(tier)), ('generic-host', hcases)):
         rep.bounds[fam + '_programs'] = len(cs)
         texts = []
         idx = []
